@@ -1,6 +1,209 @@
-import Summer.Model.Run
--- placeholder until the proof worker delivers (replaced by the real file)
-namespace Summer.Props.C13
-theorem placeholder : True := trivial
-end Summer.Props.C13
-#print axioms Summer.Props.C13.placeholder
+import Summer.Proofs.Structure
+/-
+C13 — Name-and-strata selection means: name equal and strata contain the filter.
+
+Every matcher of the model (`Build.getMatching`, `Query.queryCompartments`, the `isMatch` filter of
+`addEntry`/`addExit`, `Derived.compIndices`, `Build.flowIsMatch`, `Query.queryFlows`,
+`Derived.flowIndices`, the applicability test of `Build.getFlowAdjustment`) is proved equal to the ONE
+declarative specification `Spec.select` / `Spec.flowSelected`.
+
+Hypothesis used where the model does a per-key *lookup* (`alookup`, i.e. Python `dict.get`): the
+compartment's strata dictionary has pairwise distinct keys (`Spec.KeysNodup`).  This holds in every
+model reachable through the build API (`C12.reachable_inv`).  Distinctness of the *filter's* keys is
+never needed.
+-/
+namespace Summer.C13
+open Summer Summer.Build Summer.Spec Summer.Proofs.Structure
+
+/-! ### 1. the three forms of "the strata contain the filter" -/
+
+/-- frozenset-subset form (`Comp.hasStrata`, `Comp.isMatch`) ⇔ declarative form; no hypothesis -/
+theorem contains_iff (strata flt : Strata) :
+    strataContains strata flt = true ↔ ∀ kv ∈ flt, kv ∈ strata :=
+  strataContains_iff strata flt
+
+/-- per-key lookup form (`Build.getMatching`, `Query.queryCompartments`) ⇔ declarative form, for a
+strata dictionary with distinct keys -/
+theorem lookup_iff {strata : Strata} (hk : KeysNodup strata) (flt : Strata) :
+    flt.all (fun kv => alookup strata kv.1 == some kv.2) = true ↔ ∀ kv ∈ flt, kv ∈ strata :=
+  lookupAll_iff hk flt
+
+/-- the two executable forms agree (the hypotheses of the task statement: distinct keys on both
+sides; the filter's is not used) -/
+theorem contains_eq_lookup {strata : Strata} (hk : KeysNodup strata) (flt : Strata) (_hf : KeysNodup flt) :
+    strataContains strata flt = flt.all (fun kv => alookup strata kv.1 == some kv.2) := by
+  rw [Bool.eq_iff_iff, contains_iff, lookup_iff hk]
+
+example : KeysNodup [("age", "0"), ("loc", "urban")] ∧ KeysNodup [("loc", "urban")]
+    ∧ strataContains [("age", "0"), ("loc", "urban")] [("loc", "urban")] = true := by decide
+
+/-- the distinct-keys hypothesis of `lookup_iff` cannot be dropped: with a duplicated key the subset
+form accepts and the lookup form rejects (Python dictionaries cannot be in this state) -/
+example : strataContains [("a", "1"), ("a", "2")] [("a", "2")] = true
+    ∧ ([("a", "2")].all fun kv => alookup [("a", "1"), ("a", "2")] kv.1 == some kv.2) = false := by decide
+
+/-! ### 2. every compartment matcher is `Spec.select`, in model order -/
+
+section
+variable {α : Type}
+
+theorem getMatching_eq (m : Model α) (hk : ∀ c ∈ m.comps, KeysNodup c.strata) (name : String) (flt : Strata) :
+    getMatching m name flt = select name flt m.comps :=
+  getMatching_eq_select m hk name flt
+
+theorem queryCompartments_eq (m : Model α) (hk : ∀ c ∈ m.comps, KeysNodup c.strata) (name : String) (flt : Strata) :
+    Query.queryCompartments m (some name) flt = select name flt m.comps :=
+  queryCompartments_eq_select m hk name flt
+
+/-- the selection made by `addEntry` / `addExit` (and `addRequest`'s compartment check) -/
+theorem isMatch_filter_eq (m : Model α) (name : String) (flt : Strata) :
+    m.comps.filter (fun c => c.isMatch name flt) = select name flt m.comps :=
+  filter_isMatch_eq_select m.comps name flt
+
+/-- `build_compartment_output` returns the positions of exactly the selected compartments ... -/
+theorem compIndices_eq (m : Model α) (name : String) (flt : Strata) :
+    Derived.compIndices m [name] flt = selectIdx name flt m.comps :=
+  Proofs.Structure.compIndices_eq m name flt
+
+/-- ... where `selectIdx` is increasing, contains exactly the positions of selected compartments,
+and enumerates `select` -/
+theorem selectIdx_spec (name : String) (flt : Strata) (comps : List Comp) :
+    (selectIdx name flt comps).Pairwise (· < ·)
+    ∧ (∀ i, i ∈ selectIdx name flt comps ↔ ∃ c, comps[i]? = some c ∧ c.name = name ∧ ∀ kv ∈ flt, kv ∈ c.strata)
+    ∧ (selectIdx name flt comps).filterMap (fun i => comps[i]?) = select name flt comps := by
+  refine ⟨indicesWhere_sorted _ _, fun i => ?_, indicesWhere_filterMap_get _ _⟩
+  unfold selectIdx
+  rw [mem_indicesWhere]
+  simp only [decide_eq_true_eq]
+
+/-! ### every flow matcher is `Spec.flowSelected` -/
+
+theorem flowIsMatch_iff (f : Flow α) (name : String) (ss ds : Strata) :
+    flowIsMatch f name ss ds = true ↔ flowSelected name ss ds f :=
+  Proofs.Structure.flowIsMatch_iff f name ss ds
+
+theorem queryFlows_eq (m : Model α) (name : String) (ss ds : Strata) :
+    Query.queryFlows m (some name) ss ds = selectFlowIdx name ss ds m.flows :=
+  Proofs.Structure.queryFlows_eq m name ss ds
+
+theorem flowIndices_eq (m : Model α) (name : String) (ss ds : Strata) :
+    Derived.flowIndices m name ss ds = selectFlowIdx name ss ds m.flows :=
+  Proofs.Structure.flowIndices_eq m name ss ds
+
+theorem selectFlowIdx_spec (name : String) (ss ds : Strata) (flows : List (Flow α)) :
+    (selectFlowIdx name ss ds flows).Pairwise (· < ·)
+    ∧ (∀ i, i ∈ selectFlowIdx name ss ds flows ↔ ∃ f, flows[i]? = some f ∧ flowSelected name ss ds f)
+    ∧ (selectFlowIdx name ss ds flows).filterMap (fun i => flows[i]?) = selectFlows name ss ds flows := by
+  refine ⟨indicesWhere_sorted _ _, fun i => ?_, indicesWhere_filterMap_get _ _⟩
+  unfold selectFlowIdx
+  rw [mem_indicesWhere]
+  simp only [decide_eq_true_eq]
+
+/-- the applicability test inside `getFlowAdjustment` is the same predicate, evaluated on the
+PARENT flow: with a single declaration (that does not raise) the result is its dictionary exactly
+when the flow is selected by the declaration's name and filters -/
+theorem adjustment_applicability (s : Strat α) (d : FlowAdjDecl α) (f : Flow α) (hs : s.flowAdj = [d])
+    (hr : ¬ declRaises d f) :
+    getFlowAdjustment s f = .ok (if flowSelected d.flow d.srcStrata d.dstStrata f then some d.adjs else none) := by
+  rw [getFlowAdjustment_ok s f (by rw [hs]; intro d' hd'; rw [List.mem_singleton] at hd'; rw [hd']; exact hr)]
+  unfold winning declApplies
+  rw [hs]
+  by_cases h : flowSelected d.flow d.srcStrata d.dstStrata f <;> simp [h]
+
+/-! ### 3. `C13.agree` -/
+
+/-- The compartment matchers agree pairwise on every model with distinct strata keys. -/
+theorem agree_comps (m : Model α) (hk : ∀ c ∈ m.comps, KeysNodup c.strata) (name : String) (flt : Strata) :
+    getMatching m name flt = Query.queryCompartments m (some name) flt
+    ∧ getMatching m name flt = m.comps.filter (fun c => c.isMatch name flt)
+    ∧ getMatching m name flt = (Derived.compIndices m [name] flt).filterMap (fun i => m.comps[i]?) := by
+  rw [getMatching_eq m hk, queryCompartments_eq m hk, isMatch_filter_eq, compIndices_eq,
+    (selectIdx_spec name flt m.comps).2.2]
+  exact ⟨rfl, rfl, rfl⟩
+
+/-- The flow matchers agree pairwise on every model (no hypothesis: they all use the subset form). -/
+theorem agree_flows (m : Model α) (name : String) (ss ds : Strata) :
+    Query.queryFlows m (some name) ss ds = Derived.flowIndices m name ss ds
+    ∧ (Derived.flowIndices m name ss ds).filterMap (fun i => m.flows[i]?)
+        = m.flows.filter (fun f => flowIsMatch f name ss ds)
+    ∧ ∀ d : FlowAdjDecl α, declApplies d = fun f => flowSelected d.flow d.srcStrata d.dstStrata f := by
+  rw [queryFlows_eq, flowIndices_eq, (selectFlowIdx_spec name ss ds m.flows).2.2]
+  refine ⟨rfl, ?_, fun d => rfl⟩
+  unfold selectFlows
+  apply List.filter_congr
+  intro f _
+  rw [flowIsMatch_eq]
+
+/-- an empty filter selects all compartments with that name -/
+theorem select_empty (name : String) (comps : List Comp) :
+    select name [] comps = comps.filter (fun c => c.name == name) := by
+  unfold select
+  apply List.filter_congr
+  intro c _
+  rw [Bool.eq_iff_iff]; simp
+
+/-- an empty filter never excludes a flow; a missing end never excludes a flow -/
+theorem flow_filter_vacuous (name : String) (ss ds : Strata) (f : Flow α) :
+    (flowSelected name [] [] f ↔ f.name = name)
+    ∧ (f.src = none → (flowSelected name ss ds f ↔ flowSelected name [] ds f))
+    ∧ (f.dst = none → (flowSelected name ss ds f ↔ flowSelected name ss [] f)) := by
+  refine ⟨?_, fun h => ?_, fun h => ?_⟩
+  · simp [flowSelected, endOk_nil]
+  · simp [flowSelected, h, endOk]
+  · simp [flowSelected, h, endOk]
+
+/-- source and destination filters act independently -/
+theorem flow_filters_independent (name : String) (ss ds : Strata) (f : Flow α) :
+    flowSelected name ss ds f ↔ flowSelected name ss [] f ∧ flowSelected name [] ds f := by
+  simp only [flowSelected, endOk_nil, and_true, true_and]
+  constructor
+  · rintro ⟨h1, h2, h3⟩; exact ⟨⟨h1, h2⟩, h1, h3⟩
+  · rintro ⟨⟨h1, h2⟩, _, h3⟩; exact ⟨h1, h2, h3⟩
+
+theorem selectFlows_independent (name : String) (ss ds : Strata) (flows : List (Flow α)) :
+    selectFlows name ss ds flows = selectFlows name ss [] (selectFlows name [] ds flows) := by
+  unfold selectFlows
+  rw [List.filter_filter]
+  apply List.filter_congr
+  intro f _
+  rw [Bool.eq_iff_iff, Bool.and_eq_true, decide_eq_true_iff, decide_eq_true_iff, decide_eq_true_iff]
+  exact flow_filters_independent name ss ds f
+
+end
+
+/-! ### non-vacuity -/
+
+open Spec.Ex in
+example : (∀ c ∈ model.comps, KeysNodup c.strata)
+    ∧ getMatching model "S" [("age", "5")] = [s5]
+    ∧ select "S" [("age", "5")] model.comps = [s5]
+    ∧ select "S" [] model.comps = [s0, s5]
+    ∧ Derived.compIndices model ["I"] [("age", "5")] = [3] := by decide
+
+open Spec.Ex in
+example : Query.queryFlows model (some "infection") [("age", "5")] [] = [1]
+    ∧ Derived.flowIndices model "death" [] [("age", "0")] = [3, 4]   -- missing destination never excludes
+    ∧ Derived.flowIndices model "death" [("age", "0")] [] = [3]
+    ∧ selectFlowIdx "birth" [("age", "5")] [("age", "0")] model.flows = [2] := by decide
+
+end Summer.C13
+
+#print axioms Summer.C13.contains_iff
+#print axioms Summer.C13.lookup_iff
+#print axioms Summer.C13.contains_eq_lookup
+#print axioms Summer.C13.getMatching_eq
+#print axioms Summer.C13.queryCompartments_eq
+#print axioms Summer.C13.isMatch_filter_eq
+#print axioms Summer.C13.compIndices_eq
+#print axioms Summer.C13.selectIdx_spec
+#print axioms Summer.C13.flowIsMatch_iff
+#print axioms Summer.C13.queryFlows_eq
+#print axioms Summer.C13.flowIndices_eq
+#print axioms Summer.C13.selectFlowIdx_spec
+#print axioms Summer.C13.adjustment_applicability
+#print axioms Summer.C13.agree_comps
+#print axioms Summer.C13.agree_flows
+#print axioms Summer.C13.select_empty
+#print axioms Summer.C13.flow_filter_vacuous
+#print axioms Summer.C13.flow_filters_independent
+#print axioms Summer.C13.selectFlows_independent
